@@ -16,7 +16,7 @@ spec fn soff(vm *Thread) int = ediv(vm.sp - sbase(vm), 24)
 spec fn foff(vm *Thread) int = ediv(vm.fp - sbase(vm), 24)
 spec fn wfStack(vm *Thread) bool = vm != nil && len(vm.stack) >= 1 && len(vm.stack) == cap(vm.stack) && sbase(vm) > 0 && emod(vm.sp - sbase(vm), 24) == 0 && emod(vm.fp - sbase(vm), 24) == 0 && 0 <= foff(vm) && foff(vm) <= soff(vm) && soff(vm) <= len(vm.stack) - 1
 // slot(vm, k): the value in stack slot k
-spec fn slot(vm *Thread, k int) value.Value = load(value.Value, sbase(vm) + 24 * k)
+spec fn slot(vm *Thread, k int) value.Value = elem(vm.stack, k)
 
 func (*Thread).push
   props C10 C01
@@ -36,6 +36,7 @@ func (*Thread).popGet
   props C10 C01 C08
   requires wfStack(vm) && soff(vm) >= 1
   ensures ret == old(slot(vm, soff(vm) - 1))
+  ensures wf: old(soff(vm)) - 1 >= foff(vm) ==> wfStack(vm)
   ensures sp: soff(vm) == old(soff(vm)) - 1 && vm.fp == old(vm.fp) && vm.stack == old(vm.stack)
   ensures rest: forall k int :: 0 <= k && k < soff(vm) ==> slot(vm, k) == old(slot(vm, k))
 
@@ -110,4 +111,55 @@ func (*Thread).growValueStack
     invariant forall j int :: 0 <= j && j < len(vm.callFrames) && (j >= range_idx || old(elem(vm.callFrames, j).isNative) || old(elem(vm.callFrames, j).sentinel)) ==> elem(vm.callFrames, j).fp == old(elem(vm.callFrames, j).fp)
     invariant forall j int :: 0 <= j && j < len(vm.callFrames) ==> elem(vm.callFrames, j).isNative == old(elem(vm.callFrames, j).isNative) && elem(vm.callFrames, j).sentinel == old(elem(vm.callFrames, j).sentinel)
     decreases len(vm.callFrames) - range_idx
+
+// ==== typed opcodes agree with the generic dispatch (C08) ================================
+// The compiler emits OP_INT only when the left operand is statically an Int (checked in the
+// compiler's emitBinaryOperation); under that tag precondition the typed handler leaves on
+// the stack exactly what the generic path value.OPVal(left, right) computes.
+spec fn top(vm *Thread) value.Value = slot(vm, soff(vm) - 1)
+spec fn second(vm *Thread) value.Value = slot(vm, soff(vm) - 2)
+
+func (*Thread).opAddInt
+  props C08 C06
+  requires wfStack(vm) && soff(vm) >= 2 && foff(vm) <= soff(vm) - 2 && isInt(second(vm)) && wfv(top(vm))
+  ensures sp: soff(vm) == old(soff(vm)) - 1 && vm.fp == old(vm.fp) && vm.stack == old(vm.stack)
+  ensures same: top(vm) == old(fst(value.AddVal(second(vm), top(vm))))
+  ensures below: forall k int :: 0 <= k && k < soff(vm) - 1 ==> slot(vm, k) == old(slot(vm, k))
+
+func (*Thread).opSubtractInt
+  props C08 C06
+  requires wfStack(vm) && soff(vm) >= 2 && foff(vm) <= soff(vm) - 2 && isInt(second(vm)) && wfv(top(vm))
+  ensures sp: soff(vm) == old(soff(vm)) - 1 && vm.fp == old(vm.fp) && vm.stack == old(vm.stack)
+  ensures same: top(vm) == old(fst(value.SubtractVal(second(vm), top(vm))))
+  ensures below: forall k int :: 0 <= k && k < soff(vm) - 1 ==> slot(vm, k) == old(slot(vm, k))
+
+func (*Thread).opMultiplyInt
+  props C08 C06
+  requires wfStack(vm) && soff(vm) >= 2 && foff(vm) <= soff(vm) - 2 && isInt(second(vm)) && wfv(top(vm))
+  ensures sp: soff(vm) == old(soff(vm)) - 1 && vm.fp == old(vm.fp) && vm.stack == old(vm.stack)
+  ensures same: top(vm) == old(fst(value.MultiplyVal(second(vm), top(vm))))
+  ensures below: forall k int :: 0 <= k && k < soff(vm) - 1 ==> slot(vm, k) == old(slot(vm, k))
+
+func (*Thread).opExponentiateInt
+  props C08 C06
+  requires wfStack(vm) && soff(vm) >= 2 && foff(vm) <= soff(vm) - 2 && isInt(second(vm)) && wfv(top(vm))
+  ensures sp: soff(vm) == old(soff(vm)) - 1 && vm.fp == old(vm.fp) && vm.stack == old(vm.stack)
+  ensures same: top(vm) == old(fst(value.ExponentiateVal(second(vm), top(vm))))
+  ensures below: forall k int :: 0 <= k && k < soff(vm) - 1 ==> slot(vm, k) == old(slot(vm, k))
+
+func (*Thread).opDivideInt
+  props C08 C06
+  requires wfStack(vm) && soff(vm) >= 2 && foff(vm) <= soff(vm) - 2 && isInt(second(vm)) && wfv(top(vm))
+  ensures sp: soff(vm) == old(soff(vm)) - 1 && vm.fp == old(vm.fp) && vm.stack == old(vm.stack)
+  ensures err: (ret.flag == value.UNDEFINED_FLAG <==> old(snd(value.DivideVal(second(vm), top(vm)))).flag == value.UNDEFINED_FLAG) && (ret.flag != value.UNDEFINED_FLAG ==> ret == old(snd(value.DivideVal(second(vm), top(vm)))))
+  ensures sameS: ret.flag == value.UNDEFINED_FLAG && old(isSmall(second(vm))) ==> top(vm) == old(fst(value.DivideVal(second(vm), top(vm))))
+  ensures sameB: ret.flag == value.UNDEFINED_FLAG && old(isBig(second(vm))) ==> top(vm) == old(fst(value.DivideVal(second(vm), top(vm))))
+
+func (*Thread).opModuloInt
+  props C08 C06
+  requires wfStack(vm) && soff(vm) >= 2 && foff(vm) <= soff(vm) - 2 && isInt(second(vm)) && wfv(top(vm))
+  ensures sp: soff(vm) == old(soff(vm)) - 1 && vm.fp == old(vm.fp) && vm.stack == old(vm.stack)
+  ensures err: (ret.flag == value.UNDEFINED_FLAG <==> old(snd(value.ModuloVal(second(vm), top(vm)))).flag == value.UNDEFINED_FLAG) && (ret.flag != value.UNDEFINED_FLAG ==> ret == old(snd(value.ModuloVal(second(vm), top(vm)))))
+  ensures sameS: ret.flag == value.UNDEFINED_FLAG && old(isSmall(second(vm))) ==> top(vm) == old(fst(value.ModuloVal(second(vm), top(vm))))
+  ensures sameB: ret.flag == value.UNDEFINED_FLAG && old(isBig(second(vm))) ==> top(vm) == old(fst(value.ModuloVal(second(vm), top(vm))))
 @*/
